@@ -12,9 +12,14 @@ well-formed base requests.  A realisation is a `Msg`:
                       that is unusual / oversized / not canonical: the property does
                       not say how it must be answered
            "mal"      violates the RFC 7230 grammar or is not HTTP at all
+           "unsup"    a request of another major HTTP version (HTTP/2.0, HTTP/0.9): unsupported
+                      input, to be refused with 4xx/5xx whatever leniency the parser has
            "partial"  a proper prefix of a base request (Truncate) - the rest may follow
     data   the bytes (delivered as one read event)
     rest   for Truncate: the remainder of the base request (class "Rest" delivers it)
+    want   "METHOD target" of the request the message asks for when that is beyond doubt
+           (unmodified base requests, their prefixes and remainders), else ""
+    method "HEAD" when the message is a HEAD request (its response has no body)
 
 The table SUBS is the grammar: class -> [(sub, wf, builder)].  Builders are pure
 functions of (base request, seeded random.Random); nothing depends on time.
@@ -23,7 +28,7 @@ functions of (base request, seeded random.Random); nothing depends on time.
 import random
 from collections import namedtuple
 
-Msg = namedtuple('Msg', 'cls sub wf data rest base')
+Msg = namedtuple('Msg', 'cls sub wf data rest base want method', defaults=('', 'GET'))
 
 CRLF = b'\r\n'
 
@@ -61,26 +66,39 @@ class Base:
 
 H = (b'Host', b'verif.example')
 CHUNKED_BODY = b'5\r\nhello\r\n6;ext=1\r\n world\r\n0\r\n\r\n'
+CHUNKED_TRAILERS = b'5;ext="a b"\r\nhello\r\n6\r\n world\r\n0;last\r\nX-Trailer: one\r\nX-Other: two\r\n\r\n'
 
 BASES = [
-    Base('get11', b'GET', b'/?a=1&b=two', b'HTTP/1.1', [H]),
-    Base('get11hdrs', b'GET', b'/', b'HTTP/1.1',
+    Base('get11', b'GET', b'/get11?a=1&b=two', b'HTTP/1.1', [H]),
+    Base('get11hdrs', b'GET', b'/get11hdrs', b'HTTP/1.1',
          [H, (b'User-Agent', b'verif/1.0 (c14)'), (b'Accept', b'text/html, */*;q=0.8'),
           (b'X-Folded', b'first\r\n\tsecond part'), (b'Cookie', b'sid=abc123; theme=dark'), (b'Accept-Language', b'en')]),
-    Base('get10ka', b'GET', b'/', b'HTTP/1.0', [H, (b'Connection', b'keep-alive')]),
-    Base('postcl', b'POST', b'/', b'HTTP/1.1',
+    Base('get10ka', b'GET', b'/get10ka', b'HTTP/1.0', [H, (b'Connection', b'keep-alive')]),
+    Base('postcl', b'POST', b'/postcl', b'HTTP/1.1',
          [H, (b'Content-Type', b'text/plain'), (b'Content-Length', b'11')], b'hello world'),
-    Base('postchunked', b'POST', b'/', b'HTTP/1.1',
+    Base('postchunked', b'POST', b'/postchunked', b'HTTP/1.1',
          [H, (b'Content-Type', b'text/plain'), (b'Transfer-Encoding', b'chunked')], CHUNKED_BODY),
-    Base('get11close', b'GET', b'/', b'HTTP/1.1', [H, (b'Connection', b'close')], keeps=False),
-    Base('get10', b'GET', b'/', b'HTTP/1.0', [], keeps=False),
-    Base('postclclose', b'POST', b'/', b'HTTP/1.1',
+    Base('postchunkedtr', b'POST', b'/postchunkedtr', b'HTTP/1.1',
+         [H, (b'Transfer-Encoding', b'chunked'), (b'Trailer', b'X-Trailer, X-Other')], CHUNKED_TRAILERS),
+    Base('get11close', b'GET', b'/get11close', b'HTTP/1.1', [H, (b'Connection', b'close')], keeps=False),
+    Base('get10', b'GET', b'/get10', b'HTTP/1.0', [], keeps=False),
+    Base('postclclose', b'POST', b'/postclclose', b'HTTP/1.1',
          [H, (b'Connection', b'close'), (b'Content-Length', b'5')], b'12345', keeps=False),
 ]
 BASE = {b.name: b for b in BASES}
 KEEP_BASES = [b for b in BASES if b.keeps]
 CLOSE_BASES = [b for b in BASES if not b.keeps]
 BODY_BASES = [BASE['postcl'], BASE['postclclose']]
+# HEAD requests (kept out of BASES: the mutants are not built from them)
+HEAD_BASES = [
+    Base('head11', b'HEAD', b'/head11', b'HTTP/1.1', [H]),
+    Base('head10ka', b'HEAD', b'/head10ka?x=1', b'HTTP/1.0', [H, (b'Connection', b'keep-alive')]),
+]
+BASE.update({b.name: b for b in HEAD_BASES})
+
+
+def want_of(b):
+    return (b.method + b' ' + b.target).decode('ascii')
 
 
 def _pick(rnd, seq):
@@ -199,13 +217,15 @@ SUBS = {
         ('version_x', 'mal', _line(lambda b, r: b.method + b' ' + b.target + b' HTTP/1.x')),
         ('version_nodot', 'mal', _line(lambda b, r: b.method + b' ' + b.target + b' HTTP/11')),
         ('version_name', 'mal', _line(lambda b, r: b.method + b' ' + b.target + b' HTPP/1.1')),
-        ('version_2', 'hostile', _line(lambda b, r: b.method + b' ' + b.target + b' HTTP/2.0')),
-        ('version_09', 'hostile', _line(lambda b, r: b.method + b' ' + b.target + b' HTTP/0.9')),
+        ('version_2', 'unsup', _line(lambda b, r: b.method + b' ' + b.target + b' HTTP/2.0')),
+        ('version_09', 'unsup', _line(lambda b, r: b.method + b' ' + b.target + b' HTTP/0.9')),
         ('version_12', 'hostile', _line(lambda b, r: b.method + b' ' + b.target + b' HTTP/1.2')),
         ('version_12_badheader', 'mal', lambda b, r: b.build(version=b'HTTP/1.2', rawheaders=b'Host: verif.example\r\nX-Foo\r\n')),
         ('version_2_badheader', 'mal', lambda b, r: b.build(version=b'HTTP/2.0', rawheaders=b'Host: verif.example\r\nX-Foo\r\n')),
+        ('version_09_badheader', 'mal', lambda b, r: b.build(version=b'HTTP/0.9', rawheaders=b'Host: verif.example\r\nX-Foo\r\n')),
+        ('version_3_nohost', 'unsup', lambda b, r: BASE['get11'].build(version=b'HTTP/3.0', headers=[(b'Accept', b'*/*')])),
         ('version_1_380_badheader', 'mal', lambda b, r: b.build(version=b'HTTP/1.380', rawheaders=b'Host: verif.example\r\nX-Foo\r\n')),
-        ('version_big', 'mal', _line(lambda b, r: b.method + b' ' + b.target + b' HTTP/' + b'9' * 40 + b'.1')),
+        ('version_big', 'unsup', _line(lambda b, r: b.method + b' ' + b.target + b' HTTP/' + b'9' * 40 + b'.1')),
         ('version_trailing', 'mal', _line(lambda b, r: b.method + b' ' + b.target + b' ' + b.version + b' extra')),
         ('fragment', 'mal', _line(lambda b, r: b.method + b' /page#frag ' + b.version)),
         ('leading_crlf', 'hostile', lambda b, r: CRLF + b.data),
@@ -252,6 +272,14 @@ SUBS = {
         ('host_empty', 'hostile', lambda b, r: b.build(headers=b.with_header(b'Host', b''))),
         ('host_missing_11', 'mal', lambda b, r: BASE['get11'].build(headers=[(b'Accept', b'*/*')])),
         ('host_slash', 'mal', lambda b, r: b.build(headers=b.with_header(b'Host', b'verif.example/../x'))),
+        ('cookie_crlf_escape', 'hostile', _hdr(lambda b, r: b'Cookie: a="x\\x0d\\x0aC14-Injected: 1"\r\n')),
+        ('cookie_crlf_escape_nohost', 'mal', lambda b, r: BASE['get11'].build(headers=[(b'Cookie', b'a="x\\r\\nC14-Injected: 1"; b=2')])),
+        ('cookie_crlf_octal', 'hostile', _hdr(lambda b, r: b'Cookie: a="x\\015\\012C14-Injected: 1"\r\n')),
+        ('cookie_euro_escape', 'hostile', _hdr(lambda b, r: b'Cookie: a="\\u20ac"\r\n')),
+        ('cookie_euro_escape_nohost', 'mal', lambda b, r: BASE['get11'].build(headers=[(b'Cookie', b'sid="\\u0100\\u20ac"')])),
+        ('cookie_utf8_raw', 'hostile', _hdr(lambda b, r: b'Cookie: a="\xe2\x82\xac"; b=\xc3\xa9\r\n')),
+        ('cookie_latin1_raw', 'hostile', _hdr(lambda b, r: b'Cookie: a=caf\xe9\r\n')),
+        ('cookie_nul_escape', 'hostile', _hdr(lambda b, r: b'Cookie: a="x\\x00y"; b="\\x7f"\r\n')),
         ('cookie_bad', 'hostile', _hdr(lambda b, r: b'Cookie: a b=c; =; ;;"\x01=\\\r\n')),
         ('cookie_illegal_key', 'hostile', _hdr(lambda b, r: b'Cookie: ke[y]=v; expires=x; $Version=1; path\r\n')),
         ('te_unknown', 'hostile', lambda b, r: BASE['postcl'].build(headers=BASE['postcl'].with_header(b'Transfer-Encoding', b'gzip, chunked'))),
@@ -363,10 +391,12 @@ def tls_truncations():
 
 
 BAD_CLASSES = ['BadLine', 'BadHeader', 'BadCL', 'BadChunk', 'BadEscape', 'Nul', 'TlsHello']
-CLASSES = ['GoodKA', 'GoodClose'] + BAD_CLASSES + ['TlsCut', 'Truncate', 'Rest']
+CLASSES = ['GoodKA', 'GoodClose', 'GoodHead'] + BAD_CLASSES + ['TlsCut', 'Truncate', 'Rest']
 
 
 def n_subs(cls):
+    if cls == 'GoodHead':
+        return len(HEAD_BASES)
     if cls == 'GoodKA':
         return len(KEEP_BASES)
     if cls == 'GoodClose':
@@ -381,15 +411,19 @@ def realise(cls, rnd, sub=None, base=None, offset=None):
     mutant, else it is drawn from rnd; Truncate takes `offset` (else drawn)."""
     if cls == 'GoodKA':
         b = base or (KEEP_BASES[sub % len(KEEP_BASES)] if isinstance(sub, int) else _pick(rnd, KEEP_BASES))
-        return Msg(cls, b.name, 'good', b.data, b'', b.name)
+        return Msg(cls, b.name, 'good', b.data, b'', b.name, want_of(b))
+    if cls == 'GoodHead':
+        b = base or (HEAD_BASES[sub % len(HEAD_BASES)] if isinstance(sub, int) else _pick(rnd, HEAD_BASES))
+        return Msg(cls, b.name, 'good', b.data, b'', b.name, want_of(b), 'HEAD')
     if cls == 'GoodClose':
         b = base or (CLOSE_BASES[sub % len(CLOSE_BASES)] if isinstance(sub, int) else _pick(rnd, CLOSE_BASES))
-        return Msg(cls, b.name, 'good', b.data, b'', b.name)
+        return Msg(cls, b.name, 'good', b.data, b'', b.name, want_of(b))
     if cls == 'Truncate':
         b = base or (BASES[sub % len(BASES)] if isinstance(sub, int) else _pick(rnd, BASES))
         d = b.data
         off = offset if offset is not None else rnd.randrange(1, len(d))
-        return Msg(cls, '%s@%d' % (b.name, off), 'partial', d[:off], d[off:], b.name)
+        return Msg(cls, '%s@%d' % (b.name, off), 'partial', d[:off], d[off:], b.name, want_of(b),
+                   'HEAD' if b.method == b'HEAD' else 'GET')
     if cls == 'TlsCut':
         bases = tls_bases()
         n, d = base or (bases[sub % len(bases)] if isinstance(sub, int) else _pick(rnd, bases))
@@ -407,12 +441,13 @@ def realise(cls, rnd, sub=None, base=None, offset=None):
         ent = _pick(rnd, table)
     b = base or _any_base(rnd)
     name, wf, fn = ent
-    return Msg(cls, name, wf, fn(b, rnd), b'', b.name)
+    data = fn(b, rnd)
+    return Msg(cls, name, wf, data, b'', b.name, '', 'HEAD' if data[:5] == b'HEAD ' else 'GET')
 
 
 def rest_of(trunc):
     """The class "Rest": the remainder of a truncated base request."""
-    return Msg('Rest', trunc.sub, 'good', trunc.rest, b'', trunc.base)
+    return Msg('Rest', trunc.sub, 'good', trunc.rest, b'', trunc.base, trunc.want, trunc.method)
 
 
 def all_subs():
